@@ -181,7 +181,7 @@ pub fn property(_tier: Tier) -> Property {
             Box::new(RandomPart {
                 name: "raw_framing",
                 rule: "proptest: 1-40 commands with 0-3 arguments, list assembled by mixes of new/add/command/extend; bytes written by send_list must be the bare line (n=1) or command_list_ok_begin + the n lines in order + command_list_end; non-trivial = n >= 2; distinct by serialised case",
-                cases: (20_000, 1_000_000),
+                cases: (20_000, 5_000_000),
                 strategy: Box::new(|_t| {
                     (
                         prop::collection::vec((valid_name(), prop::collection::vec(arg_string(12), 0..=3usize)), 1..=40usize),
